@@ -718,4 +718,88 @@ func runC16(c *core.Ctx) {
 		}
 		c16Check(c, pool, specs[r.Intn(len(specs))], c16Doc{src: src})
 	}
+	c16ContextHistories(c, pool, specs)
+}
+
+// c16ContextHistories: one parser.Context handed to many Parse calls (parser.WithContext), as a caller does that keeps its
+// context around. A document with n footnotes (n at every boundary size, referenced in order, in reverse, twice, or not at
+// all) goes first; small documents that use the same labels follow with the same context. Each document must obey the
+// footnote laws on its own: what an earlier document left in the context (a label index, the list of definitions) must not
+// resolve, number or drop anything in a later one.
+func c16ContextHistories(c *core.Ctx, pool *cfg.Pool, specs []cfg.Spec) {
+	k := 0
+	for _, n := range wl.BoundarySizes {
+		if n > 600 {
+			continue
+		}
+		for shape := 0; shape < 4; shape++ {
+			k++
+			if !c.Mine(k) {
+				continue
+			}
+			var big strings.Builder
+			for i := 0; i < n; i++ {
+				switch shape {
+				case 0:
+					fmt.Fprintf(&big, "x[^f%d] ", i)
+				case 1:
+					fmt.Fprintf(&big, "x[^f%d] ", n-1-i)
+				case 2:
+					fmt.Fprintf(&big, "x[^f%d] y[^f%d] ", i, (i*7+3)%n)
+				}
+				if i%10 == 9 {
+					big.WriteString("\n")
+				}
+			}
+			if shape == 3 {
+				big.WriteString("no reference at all, and one to [^undefined]")
+			}
+			big.WriteString("\n\n")
+			for i := 0; i < n; i++ {
+				fmt.Fprintf(&big, "[^f%d]: note %d\n\n", i, i)
+			}
+			smalls := []string{
+				"a[^f0] b[^f1]\n\n[^f0]: own zero\n\n[^f1]: own one\n",
+				"only[^f1]\n\n[^f1]: own one\n\n[^f0]: never used\n",
+				"twice[^f2] and[^f2] and[^f0]\n\n[^f0]: z\n\n[^f2]: t\n",
+				"nothing defined here [^f0] [^f3]\n",
+				"[^f5]: defined but unused\n\ntext\n",
+				"last[^f" + fmt.Sprint(n-1) + "]\n\n[^f" + fmt.Sprint(n-1) + "]: own last\n",
+			}
+			sp := specs[k%len(specs)]
+			md := pool.Get(sp)
+			ctx := parser.NewContext()
+			docs := append([]string{big.String()}, smalls...)
+			for di, d := range docs {
+				src := []byte(d)
+				var out bytes.Buffer
+				var doc ast.Node
+				pv, _ := core.Try(func() {
+					doc = md.Parser().Parse(text.NewReader(src), parser.WithContext(ctx))
+					_ = md.Renderer().Render(&out, src, doc)
+				})
+				c.Eval()
+				c.Count("documents_parsed_with_a_reused_context", 1)
+				if pv != nil {
+					c.Count("conversion_failed_left_to_C01", 1)
+					continue
+				}
+				fs, items, _, ok := c16Verify(out.Bytes(), sp.FootnoteIDPrefix(), nil, doc)
+				if !ok {
+					continue
+				}
+				c.Count("items_inspected", int64(items))
+				// by construction: the number of rendered items of the small documents
+				wantItems := map[int]int{1: 2, 2: 1, 3: 2, 4: 0, 5: 0, 6: 1}
+				if w, known := wantItems[di]; known && items != w && !(di == 6 && n == 0) {
+					fs = append(fs, c16Finding{"wrong-item-count", "reused-context", fmt.Sprintf("%d footnote items rendered, the document defines and references %d\noutput: %s", items, w, q(out.Bytes()))})
+				}
+				for _, f := range fs {
+					c.Violation(&core.Violation{Class: f.class + ":reused-parser-context", Locus: f.locus, Config: sp.Name(), Input: src,
+						Detail: fmt.Sprintf("one parser.Context reused across documents (parser.WithContext); before this document the context had parsed a document with %d footnotes (shape %d) and %d small ones\n%s", n, shape, di-1, f.detail)})
+				}
+			}
+			c.Count("context_histories", 1)
+		}
+	}
 }
